@@ -338,7 +338,7 @@ class C16Transformed(Harness):
             coarse = self._build(E, p, coarse_edges, [0.0] * (n // 2), shape)
             return {"fine": _tolist(fine.bin_sizes), "coarse": _tolist(coarse.bin_sizes)}
         h = self._build(E, p, x["e"], x["f"], shape)
-        return {"sizes": _tolist(h.bin_sizes), "dens": _tolist(h.densities), "total": h.total, "total_size": h.total_size if p.get("radius") else None, "cls": type(h).__name__}
+        return {"sizes": _tolist(h.bin_sizes), "dens": _tolist(h.densities), "total": h.total, "total_size": h.total_size if len(shape) > 1 else h.total_width, "cls": type(h).__name__}
 
     def _measure(self, cx, kinds, lo, hi):
         """Reference measure of the box [lo, hi] (lists of z3 terms per axis) - returns (poly, cos_pairs)."""
@@ -415,3 +415,5 @@ class C16Transformed(Harness):
             hi = [e[k][-1] for k in range(D)]
             whole = self._measure(cx, kinds, lo, hi)
             yield "sizes_sum_to_region_measure", zsum(sizes.values()) == whole
+            if D > 1:
+                yield "total_size_is_region_measure", cx.eq(obs["total_size"], whole)
